@@ -120,6 +120,11 @@ inline bool chk(const char* rel, double err, double tol, const std::string& what
   return true;
 }
 inline bool valid_ll(double lat, double lon) { return fin(lat) && fin(lon) && std::fabs(lat) <= 90; }
+// the short overloads (without azimuth and scale) are documented as the same function: bit-identical x, y / lat, lon
+inline bool sameBits(double a, double b) { return gv::bits(a) == gv::bits(b) || (std::isnan(a) && std::isnan(b)); }
+inline void overloads(const char* rel, double a1, double b1, double a2, double b2, const char* what) {
+  if (!(sameBits(a1, a2) && sameBits(b1, b2))) bad(rel, std::string(what) + ": the overload without azimuth and scale returns (" + n17(a2) + ", " + n17(b2) + "), the full one (" + n17(a1) + ", " + n17(b1) + ")");
+}
 
 // ---- sphere: closed forms in long double (independent of the Geodesic class altogether) ---------------------------
 struct Sph { LD sig, ssig, csig, azi0;  // angular distance and azimuth at the centre (radians)
@@ -144,6 +149,8 @@ static Reg r_azeq_fwd("azeq_fwd", [](const Args& A) {
     double s, azi0, azi2, m, sig = g.Inverse(lat0, lon0, lat, lon, s, azi0, azi2, m);
     double sx, cx; Math::sincosd(azi0, sx, cx);
     AzimuthalEquidistant pj(g); double x, y, azi, rk; pj.Forward(lat0, lon0, lat, lon, x, y, azi, rk);
+    { double x2 = NAN, y2 = NAN; pj.Forward(lat0, lon0, lat, lon, x2, y2); overloads("azeq-overloads", x, y, x2, y2, "AzimuthalEquidistant::Forward");
+      if (!(pj.EquatorialRadius() == a && pj.Flattening() == f)) bad("azeq-overloads", "EquatorialRadius() / Flattening() differ from the Geodesic object"); }
     emit(hx(sig) + " " + hx(s) + " " + hx(azi0) + " " + hx(azi2) + " " + hx(m) + " " + hx(sx) + " " + hx(cx) + " " + hx(x) + " " + hx(y) + " " + hx(azi) + " " + hx(rk));
     El e = mkEl(a, f, ex); if (!e.ok() || !valid_ll(lat0, lon0) || !valid_ll(lat, lon)) return;
     if (std::isnan(s) || std::isnan(azi0) || std::isnan(azi2) || std::isnan(m)) { double t1, t2, t3, t4, t5, t6; inv(g, lat0, lon0, lat, lon, t1, t2, t3, t4, t5, t6); if (auxnan()) return; }
@@ -188,6 +195,7 @@ static Reg r_azeq_rev("azeq_rev", [](const Args& A) {
     Geodesic g(a, f, ex != 0);
     double azi0 = Math::atan2d(x, y), s = std::hypot(x, y), lat1, lon1, azi1, m, sig = g.Direct(lat0, lon0, azi0, s, lat1, lon1, azi1, m);
     AzimuthalEquidistant pj(g); double lat, lon, azi, rk; pj.Reverse(lat0, lon0, x, y, lat, lon, azi, rk);
+    { double la2 = NAN, lo2 = NAN; pj.Reverse(lat0, lon0, x, y, la2, lo2); overloads("azeq-overloads", lat, lon, la2, lo2, "AzimuthalEquidistant::Reverse"); }
     emit(hx(azi0) + " " + hx(s) + " " + hx(sig) + " " + hx(lat1) + " " + hx(lon1) + " " + hx(azi1) + " " + hx(m) + " " + hx(lat) + " " + hx(lon) + " " + hx(azi) + " " + hx(rk));
     El e = mkEl(a, f, ex); if (!e.ok() || !valid_ll(lat0, lon0) || !fin(x) || !fin(y) || !fin(s)) return;
     if (!(fin(lat) && fin(lon) && fin(azi) && std::fabs(lat) <= 90 && std::fabs(lon) <= 180)) { bad("azeq_rev-finite", "non-finite or out-of-range output for a finite (x,y)"); return; }
@@ -232,6 +240,8 @@ static Reg r_gnom_fwd("gnom_fwd", [](const Args& A) {
     g.GenInverse(lat0, lon0, lat, lon, Geodesic::AZIMUTH | Geodesic::REDUCEDLENGTH | Geodesic::GEODESICSCALE, t, azi0, azi2, m, M, t, t);
     double sx, cx; Math::sincosd(azi0, sx, cx);
     Gnomonic pj(g); double x, y, azi, rk; pj.Forward(lat0, lon0, lat, lon, x, y, azi, rk);
+    { double x2 = NAN, y2 = NAN; pj.Forward(lat0, lon0, lat, lon, x2, y2); overloads("gnom-overloads", x, y, x2, y2, "Gnomonic::Forward");
+      if (!(pj.EquatorialRadius() == a && pj.Flattening() == f)) bad("gnom-overloads", "EquatorialRadius() / Flattening() differ from the Geodesic object"); }
     emit(hx(azi0) + " " + hx(azi2) + " " + hx(m) + " " + hx(M) + " " + hx(sx) + " " + hx(cx) + " " + hx(x) + " " + hx(y) + " " + hx(azi) + " " + hx(rk));
     El e = mkEl(a, f, ex); if (!e.ok() || !valid_ll(lat0, lon0) || !valid_ll(lat, lon)) return;
     if (std::isnan(azi0) || std::isnan(azi2) || std::isnan(m) || std::isnan(M)) { double t1, t2, t3, t4, t5, t6; inv(g, lat0, lon0, lat, lon, t1, t2, t3, t4, t5, t6); if (auxnan()) return; }
@@ -282,6 +292,7 @@ static Reg r_gnom_rev("gnom_rev", [](const Args& A) {
   std::string err = gv::guarded([&] {
     Geodesic g(a, f, ex != 0);
     Gnomonic pj(g); double lat, lon, azi, rk; pj.Reverse(lat0, lon0, x, y, lat, lon, azi, rk);
+    { double la2 = NAN, lo2 = NAN; pj.Reverse(lat0, lon0, x, y, la2, lo2); overloads("gnom-overloads", lat, lon, la2, lo2, "Gnomonic::Reverse"); }
     emit(hx(lat) + " " + hx(lon) + " " + hx(azi) + " " + hx(rk));
     El e = mkEl(a, f, ex); if (!e.ok() || !valid_ll(lat0, lon0) || !fin(x) || !fin(y)) return;
     double rho = std::hypot(x, y), azi0 = Math::atan2d(x, y); if (!fin(rho)) return;
@@ -325,6 +336,16 @@ static Reg r_cass_fwd("cass_fwd", [](const Args& A) {
     double sig12 = g.Inverse(lat, -std::fabs(dlon), lat, std::fabs(dlon), s12, azi1, azi2);
     double da = Math::AngDiff(azi1, azi2) / 2;
     double x = NAN, y = NAN, azi = NAN, rk = NAN; cs.Forward(lat, lon, x, y, azi, rk);
+    { double x2 = NAN, y2 = NAN; cs.Forward(lat, lon, x2, y2); overloads("cass-overloads", x, y, x2, y2, "CassiniSoldner::Forward");
+      // history: an object constructed at the default origin, used, moved to another origin, used, and finally Reset to (lat0, lon0)
+      // is the object constructed there (state _meridian, _sbet0, _cbet0 is set by Reset alone)
+      CassiniSoldner h(g); double t1, t2, t3, t4; h.Forward(lat, lon, t1, t2, t3, t4); h.Reset(-lat0 / 2, lon0 + 77); h.Forward(lat, lon, t1, t2); h.Reverse(1e5, -2e5, t1, t2);
+      h.Reset(lat0, lon0); double hx_ = NAN, hy_ = NAN, ha = NAN, hk = NAN; h.Forward(lat, lon, hx_, hy_, ha, hk);
+      if (!(sameBits(hx_, x) && sameBits(hy_, y) && sameBits(ha, azi) && sameBits(hk, rk))) bad("cass-reset-history", "a CassiniSoldner object Reset to (lat0, lon0) after other origins gives (" + n17(hx_) + ", " + n17(hy_) + "), a fresh one (" + n17(x) + ", " + n17(y) + ")");
+      if (!(sameBits(h.LatitudeOrigin(), cs.LatitudeOrigin()) && sameBits(h.LongitudeOrigin(), cs.LongitudeOrigin()))) bad("cass-reset-history", "origin inspectors differ after Reset");
+      if (valid_ll(lat0, lon0) && !(cs.LatitudeOrigin() == lat0 && std::fabs(Math::AngDiff(cs.LongitudeOrigin(), lon0)) <= 4 * ulp(180.0)))
+        bad("cass-origin", "LatitudeOrigin() / LongitudeOrigin() = " + n17(cs.LatitudeOrigin()) + ", " + n17(cs.LongitudeOrigin()) + " for the origin " + n17(lat0) + ", " + n17(lon0));
+      if (!(cs.EquatorialRadius() == a && cs.Flattening() == f)) bad("cass-overloads", "EquatorialRadius() / Flattening() differ from the Geodesic object"); }
     emit(hx(dlon) + " " + hx(sig12) + " " + hx(s12) + " " + hx(azi1) + " " + hx(azi2) + " " + hx(da) + " " + hx(x) + " " + hx(y) + " " + hx(azi) + " " + hx(rk));
     El e = mkEl(a, f, ex); if (!e.ok() || !valid_ll(lat0, lon0) || !valid_ll(lat, lon)) return;
     if (!(fin(x) && fin(y) && fin(azi) && fin(rk))) { bad("cass_fwd-finite", "non-finite output for a valid point"); return; }
@@ -387,6 +408,9 @@ static Reg r_cass_rev("cass_rev", [](const Args& A) {
     CassiniSoldner cs(lat0, lon0, g);
     double lat1 = NAN, lon1 = NAN, azi0 = NAN; cs._meridian.Position(y, lat1, lon1, azi0);
     double lat = NAN, lon = NAN, azi = NAN, rk = NAN; cs.Reverse(x, y, lat, lon, azi, rk);
+    { double la2 = NAN, lo2 = NAN; cs.Reverse(x, y, la2, lo2); overloads("cass-overloads", lat, lon, la2, lo2, "CassiniSoldner::Reverse");
+      CassiniSoldner h(g); h.Reset(lat0, lon0); double hl = NAN, ho = NAN, ha = NAN, hk = NAN; h.Reverse(x, y, hl, ho, ha, hk);
+      if (!(sameBits(hl, lat) && sameBits(ho, lon) && sameBits(ha, azi) && sameBits(hk, rk))) bad("cass-reset-history", "CassiniSoldner(geod) + Reset(lat0, lon0) reverses to (" + n17(hl) + ", " + n17(ho) + "), CassiniSoldner(lat0, lon0, geod) to (" + n17(lat) + ", " + n17(lon) + ")"); }
     emit(hx(lat1) + " " + hx(lon1) + " " + hx(azi0) + " " + hx(lat) + " " + hx(lon) + " " + hx(azi) + " " + hx(rk));
     El e = mkEl(a, f, ex); if (!e.ok() || !valid_ll(lat0, lon0) || !fin(x) || !fin(y)) return;
     if (!(fin(lat) && fin(lon) && fin(azi) && fin(rk) && std::fabs(lat) <= 90 && std::fabs(lon) <= 180)) { bad("cass_rev-finite", "non-finite or out-of-range output for a finite (x,y)"); return; }
@@ -435,8 +459,10 @@ inline double horizon(const Geodesic& g, double a, double lat0, double lon0, dou
   return s;
 }
 
-inline void generate(Rng& r, bool thorough) {
-  long n = thorough ? 100000 : 12000;
+inline void generate(Rng& r, bool thorough, int K = 1) {
+  auto Q = [&](long v) { return std::max<long>(1, v / K); };   // K slices: the orchestrating generate() runs the parts round-robin
+
+  long n = Q(thorough ? 100000 : 12000);
   auto H = [](double v) { return hx(v); };
   for (long i = 0; i < n; ++i) {
     Case c;
